@@ -372,7 +372,8 @@ impl<'a, const D: usize> Rdp<'a, D> {
 
         // A zero-length chord (the seam of a closed curve) has no direction: measure to the point
         let chord = self.points[i1] - self.points[i0];
-        let sp = if chord.norm() > 0.0 {
+        let chord_len = chord.norm();
+        let sp = if chord_len > 0.0 {
             Some(SurfacePoint::new_normalize(self.points[i0], chord))
         } else {
             None
@@ -382,7 +383,13 @@ impl<'a, const D: usize> Rdp<'a, D> {
 
         for i in i0 + 1..i1 {
             let dist = match &sp {
-                Some(sp) => (sp.projection(&self.points[i]) - self.points[i]).norm(),
+                // Distance to the chord *segment*: a vertex whose projection falls beyond an end of
+                // the chord is measured to that end, otherwise a discarded vertex could lie farther
+                // than the tolerance from the simplified curve
+                Some(sp) => {
+                    let t = sp.scalar_projection(&self.points[i]).clamp(0.0, chord_len);
+                    (sp.at_distance(t) - self.points[i]).norm()
+                }
                 None => (self.points[i] - self.points[i0]).norm(),
             };
             if dist > max_dist {
